@@ -331,6 +331,11 @@ double Inv_GammaP(double p, double a)
 		std::cerr << "Error in libphysica::Inv_GammaP(): a must be positive." << std::endl;
 		std::exit(EXIT_FAILURE);
 	}
+	if(p < 0.0 || p > 1.0)
+	{
+		std::cerr << "Error in libphysica::Inv_GammaP(): p is not a probability (p=" << p << ")." << std::endl;
+		std::exit(EXIT_FAILURE);
+	}
 	if(p >= 1.0)
 		return std::max(100.0, a + 100. * sqrt(a));
 	if(p <= 0.0)
@@ -389,6 +394,11 @@ double Inv_GammaP(double p, double a)
 // Solves Q(x,a)=p for x.
 double Inv_GammaQ(double q, double a)
 {
+	if(q < 0.0 || q > 1.0)
+	{
+		std::cerr << "Error in libphysica::Inv_GammaQ(): q is not a probability (q=" << q << ")." << std::endl;
+		std::exit(EXIT_FAILURE);
+	}
 	return Inv_GammaP(1.0 - q, a);
 }
 
